@@ -168,6 +168,8 @@ pub fn gen_case(rng: &mut Rng) -> CsvCase {
     let special_names = rng.chance(1, 4);
     let names = gen_names(rng, ncols, !special_names);
     let wild = rng.chance(1, 10);
+    // five-digit years (the writer spells them "+10000-..")
+    let far = !wild && rng.chance(1, 8);
     let n = rng.len_biased(40);
     let cfg = value_cfg();
     let mut fields = Vec::new();
@@ -178,7 +180,12 @@ pub fn gen_case(rng: &mut Rng) -> CsvCase {
         let mut col = gens::gen_column(rng, &dt, n, nullable, &cfg);
         if !wild {
             let mut r2 = rng.fork();
-            walk_col(&dt, &mut col, &mut |l, v| tame_temporal(&mut r2, l, v));
+            walk_col(&dt, &mut col, &mut |l, v| {
+                tame_temporal(&mut r2, l, v);
+                if far {
+                    far_future(l, v);
+                }
+            });
         }
         fields.push(Field::new(nm, dt, nullable));
         cols.push(col);
@@ -223,7 +230,7 @@ pub fn gen_case(rng: &mut Rng) -> CsvCase {
             o.trim_lead = rng.bool();
             o.trim_trail = rng.bool() || !o.trim_lead;
         }
-        if rng.chance(1, 10) && !wild {
+        if rng.chance(1, 10) && !wild && !far {
             o.ts_format = Some("%Y-%m-%d %H:%M:%S%.f".into());
             o.ts_tz_format = Some("%Y-%m-%d %H:%M:%S%.f%:z".into());
             if rng.bool() {
@@ -519,7 +526,7 @@ pub fn run_rt(ctx: &mut Ctx, k: u64) {
 
 /// double_quote=false with the escape byte inside a value: one signature whatever the symptom
 fn esc_sig(c: &CsvCase, sig: String) -> String {
-    if c.esc_in_value { "C17|csv|rt|escape-byte-in-value-not-escaped".to_string() } else { sig }
+    if c.esc_in_value { "C17|csv|roundtrip|escape-byte-in-value".to_string() } else { sig }
 }
 
 fn rt_case(ctx: &mut Ctx, c: &CsvCase) {
@@ -562,7 +569,7 @@ fn rt_case(ctx: &mut Ctx, c: &CsvCase) {
         match split_rfc4180(&bytes, dialect) {
             Err(e) => {
                 ctx.violation(
-                    &format!("C17|csv|write|text-not-rfc4180|{}", norm_msg(&e)),
+                    &format!("C17|csv|write|text-not-rfc4180|{}", err_family(&e)),
                     detail(&format!("splitter: {e}"), &bytes),
                 );
                 return;
@@ -622,7 +629,7 @@ fn rt_case(ctx: &mut Ctx, c: &CsvCase) {
                             Val::Null => {
                                 if got.as_slice() != sent {
                                     ctx.violation(
-                                        &format!("C17|csv|write|null-text|{}", gens::type_class(f.data_type())),
+                                        &format!("C17|csv|write|null-text|{}", family(f.data_type())),
                                         detail(&format!("row {ri} col {ci}: null written as {:?}", String::from_utf8_lossy(got)), &bytes),
                                     );
                                     return;
@@ -631,7 +638,7 @@ fn rt_case(ctx: &mut Ctx, c: &CsvCase) {
                             Val::Str(s) => {
                                 if got.as_slice() != s.as_bytes() {
                                     ctx.violation(
-                                        &format!("C17|csv|write|string-text|{}", gens::type_class(f.data_type())),
+                                        &format!("C17|csv|write|string-text|{}", family(f.data_type())),
                                         detail(&format!("row {ri} col {ci}: {s:?} written as {:?}", String::from_utf8_lossy(got)), &bytes),
                                     );
                                     return;
@@ -688,7 +695,7 @@ fn rt_case(ctx: &mut Ctx, c: &CsvCase) {
                 return;
             }
             ctx.violation(
-                &esc_sig(c, format!("C17|csv|rt|read-panic|{}|{}", p.file(), norm_msg(&p.msg))),
+                &esc_sig(c, format!("C17|csv|read|panic|{}|{}", p.file(), err_family(&p.msg))),
                 detail(&format!("reader panic: {} @ {}", p.msg, p.loc), &bytes),
             );
             return;
@@ -701,7 +708,7 @@ fn rt_case(ctx: &mut Ctx, c: &CsvCase) {
             }
             ctx.eval();
             ctx.violation(
-                &esc_sig(c, format!("C17|csv|rt|read-err|{}", norm_msg(&e))),
+                &esc_sig(c, format!("C17|csv|read|err|{}", err_family(&e))),
                 detail(&format!("reader error: {e}"), &bytes),
             );
             return;
@@ -715,18 +722,18 @@ fn rt_case(ctx: &mut Ctx, c: &CsvCase) {
     let exp_schema = Schema::new(exp.iter().map(|(f, _)| f.clone()).collect::<Vec<_>>());
     for b in &batches {
         if b.num_rows() > o.batch_size {
-            ctx.violation("C17|csv|rt|batch-size", detail(&format!("batch of {} rows > batch_size", b.num_rows()), &bytes));
+            ctx.violation("C17|csv|read|batch-size", detail(&format!("batch of {} rows > batch_size", b.num_rows()), &bytes));
             return;
         }
         if !same_fields(&b.schema(), &exp_schema) {
             ctx.violation(
-                "C17|csv|rt|schema",
+                "C17|csv|read|schema",
                 detail(&format!("reader schema {:?} != {:?}", b.schema(), exp_schema), &bytes),
             );
             return;
         }
         if let Err(e) = check_batch(b) {
-            ctx.violation(&format!("C17|csv|rt|invalid-batch|{}", norm_msg(&e)), detail(&e, &bytes));
+            ctx.violation(&format!("C17|csv|read|invalid-batch|{}", err_family(&e)), detail(&e, &bytes));
             return;
         }
     }
@@ -736,7 +743,7 @@ fn rt_case(ctx: &mut Ctx, c: &CsvCase) {
         if let Some((row, leaf, kind)) = diff_col(f.data_type(), e, g) {
             ok = false;
             ctx.violation(
-                &esc_sig(c, format!("C17|csv|rt|{leaf}|{kind}")),
+                &esc_sig(c, format!("C17|csv|roundtrip|{kind}|{leaf}")),
                 detail(
                     &format!(
                         "column {ci} ({}) row {row}: expected {:?} got {:?}",
@@ -919,13 +926,13 @@ pub fn run_split(ctx: &mut Ctx, k: u64) {
         let batches = match read {
             Err(p) => {
                 ctx.violation(
-                    &format!("C17|csv|split|read-panic|{}|{}", p.file(), norm_msg(&p.msg)),
+                    &format!("C17|csv|split|panic|{}|{}", p.file(), err_family(&p.msg)),
                     detail(format!("panic {} @ {}", p.msg, p.loc)),
                 );
                 continue;
             }
             Ok(Err(e)) => {
-                ctx.violation(&format!("C17|csv|split|read-err|{}", norm_msg(&e)), detail(format!("reader error {e}")));
+                ctx.violation(&format!("C17|csv|split|err|{}", err_family(&e)), detail(format!("reader error {e}")));
                 continue;
             }
             Ok(Ok(b)) => b,
